@@ -34,6 +34,24 @@ ValidDecomposition(aw, bw, c) == InRanges(c) /\ Rebuilds(aw, bw, c)
 Wall7(v) == IF IsDate(v) THEN <<v.w[1], v.w[2], v.w[3], 0, 0, 0, 0>> ELSE v.w
 WallLe(a, b) == I3Le(I3OfWall(a), I3OfWall(b))
 
+\* ---- implementation-shaped: the compiled helper's hand-written conversion of an end-point to UTC ----------------
+\* (rust/src/python/helpers.rs: i32 division truncating toward zero; carries tested with `> 60` / `> 24`; the day is
+\* moved without month arithmetic).  Used to LABEL the inputs on which that conversion is right.
+TMod(a, b) == a - b * TDiv(a, b)            \* TDiv (truncating division) comes from Calendar
+RustShift(w, off) ==
+  LET h1 == w[4] - TDiv(off, 3600)   o1 == TMod(off, 3600)
+      m1 == w[5] - TDiv(o1, 60)      o2 == TMod(o1, 60)
+      s1 == w[6] - o2
+      s2 == IF s1 < 0 THEN s1 + 60 ELSE IF s1 > 60 THEN s1 - 60 ELSE s1
+      m2 == IF s1 < 0 THEN m1 - 1 ELSE IF s1 > 60 THEN m1 + 1 ELSE m1
+      m3 == IF m2 < 0 THEN m2 + 60 ELSE IF m2 > 60 THEN m2 - 60 ELSE m2
+      h2 == IF m2 < 0 THEN h1 - 1 ELSE IF m2 > 60 THEN h1 + 1 ELSE h1
+      h3 == IF h2 < 0 THEN h2 + 24 ELSE IF h2 > 24 THEN h2 - 24 ELSE h2
+      d1 == IF h2 < 0 THEN w[3] - 1 ELSE IF h2 > 24 THEN w[3] + 1 ELSE w[3]
+  IN <<w[1], w[2], d1, h3, m3, s2, w[7]>>
+\* the hand-written conversion of value v yields its true UTC wall reading
+RustShiftOK(v) == LET r == RustShift(v.w, OffOf(v)) IN ValidWall(r) /\ r = WallOf(InstOf(v))
+
 \* ---- implementation-shaped: precise_diff for aw <= bw expressed in one frame -----------
 PrevMonth(y, m) == IF m = 1 THEN <<y - 1, 12>> ELSE <<y, m - 1>>
 AlgPD(aw, bw) ==
